@@ -170,6 +170,13 @@ static void any_family(vt::rng& g, int count)
         bool any = false;
         for (int z : wz) any = any || z;
         if (!any) { w[1] = T(0.7); wz[1] = 1; }
+        // every other vector is normalised in T (as the weights of a checkpoint are): its floating-point sum is then one or one ulp off
+        if (k % 2)
+        {
+            T st = T();
+            for (T x : w) st += x;
+            for (T& x : w) x /= st;
+        }
         // canonical numbers: the floating-point neighbours (in T) of every cumulative boundary, computed in long double
         long double S = 0;
         for (T x : w) S += x;
